@@ -212,6 +212,7 @@ class Escape:
         self._calls = {}       # qual -> {node id: [(target FuncInfo, call ast)]}
         self.esc = {}          # qual -> {exc: witness chain (list of str)}
         self._parents = {}
+        self._svals = {}
         self.uncatalogued = set()
         self.killed = []       # (qual, exc, reason)
         self._done = False
@@ -309,6 +310,20 @@ class Escape:
                 return 'already an ipaddress object'
             if any(t.name == 'to_ipaddr' for t in r.targets):
                 return 'XfrmAddress.to_ipaddr result'
+        sv = self.sval(fi)
+        if sv is not None and id(arg) in sv.terms and fi.cls is not None and fi.cls.lookup_attr('_fields_') is not None:
+            fields = src(fi.cls.lookup_attr('_fields_'))
+
+            def packed(t):
+                if t[0] == 'cond':
+                    return packed(t[2]) and packed(t[3])
+                if t[0] == 'slice' and t[2][0] == 'const' and t[2][2] is None and t[3][0] == 'const' and t[3][2] in (4, 16) \
+                        and t[4][2] is None:
+                    return packed(t[1])
+                return t[0] == 'call' and t[1] == 'builtins.bytes' and len(t[3]) == 1 and t[3][0][1][0] == 'attr' \
+                    and t[3][0][1][1] == ('param', fi.self_name)
+            if ('c_uint32 * 4' in fields or 'c_ubyte * 16' in fields) and packed(sv.terms[id(arg)]):
+                return '16-octet ctypes array or its 4-octet prefix'
         if isinstance(arg, ast.Name):
             defs = self.res.local_defs(fi).get(arg.id, [])
             if defs and all((isinstance(v, ast.Call) and src(v.func) == 'bytes' and len(v.args) == 1
@@ -342,6 +357,25 @@ class Escape:
         if isinstance(arg, ast.Attribute) and arg.attr in ('start_addr', 'end_addr', 'my_addr', 'peer_addr'):
             return 'ipaddress object held by the repository (assumption)'
         return None
+
+    def sval(self, fi):
+        """value terms of fi (None when the function uses a construct sa.sval does not model)"""
+        if fi.qual not in self._svals:
+            try:
+                from .sval import SVal
+                self._svals[fi.qual] = SVal(self.prog, self.res, fi) if isinstance(fi.node, ast.FunctionDef) else None
+            except AnalysisError:
+                self._svals[fi.qual] = None
+        return self._svals[fi.qual]
+
+    def _term_safe(self, fi, sub):
+        """(index-safe, key-safe) by bounds facts of the path condition (sa.bounds)"""
+        sv = self.sval(fi)
+        if sv is None or id(sub.value) not in sv.terms or id(sub.slice) not in sv.terms or id(sub) not in sv.conds:
+            return False, False
+        from . import bounds
+        b, i, pc = sv.terms[id(sub.value)], sv.terms[id(sub.slice)], sv.conds[id(sub)]
+        return bounds.index_safe(b, i, pc), bounds.key_safe(b, i, pc)
 
     def _subscript_effects(self, fi, sub):
         if isinstance(sub.slice, ast.Slice) or not isinstance(sub.ctx, ast.Load):
@@ -391,6 +425,8 @@ class Escape:
             kinds = ['IndexError']
         else:
             kinds = ['IndexError', 'KeyError']
+        isafe, ksafe = self._term_safe(fi, sub)
+        kinds = [k for k in kinds if not (k == 'IndexError' and isafe) and not (k == 'KeyError' and (ksafe or (isafe and kinds == ['IndexError', 'KeyError'])))]
         return [(k, 'subscript %s' % src(sub)[:60], sub) for k in kinds]
 
     def _call_effects(self, fi, call, r):
@@ -421,7 +457,12 @@ class Escape:
                     out.append(('ValueError', '%s(%s)' % (lib[10:], src(call.args[0])[:40]), call))
             elif lib == 'method.pop':
                 recv = src(call.func.value)
-                if not self.truthy_guarded(fi, call, recv):
+                sv = self.sval(fi)
+                safe = False
+                if sv is not None and id(call.func.value) in sv.terms and id(call) in sv.conds and not call.args:
+                    from . import bounds
+                    safe = bounds.nonempty(sv.terms[id(call.func.value)], sv.conds[id(call)])
+                if not safe and not self.truthy_guarded(fi, call, recv):
                     out.append(('IndexError', '%s.pop()' % recv[:40], call))
                     if call.args:
                         out.append(('KeyError', '%s.pop()' % recv[:40], call))
